@@ -488,16 +488,19 @@ def r6_put_out_of_place(ctx):
     state_put_out_of_place(ctx, rid="C02.R6", why="the by-reference snapshot shares that tensor, so a rejected proposal is 'restored' with the proposed entries in it")
 
 
-def r7_auto_fork_scoped(ctx):
+def r7_auto_fork_scoped(ctx, rid="C02.R7", title=None):
     """`with state.auto_fork(None): ...` must switch snapshotting back on however the block is left: if an exception escaping the block
     leaves it off, the next proposals are not forked and `revert()` restores a stale snapshot (or finds none)."""
-    ctx.rule("C02.R7", "State.auto_fork restores the previous forking mode in a `finally` around the yield", 1)
-    f = ctx.ix.func(STATE, "State.auto_fork", "C02.R7")
+    ctx.rule(rid, title or "State.auto_fork restores the previous forking mode in a `finally` around the yield", 1)
+    f = ctx.ix.func(STATE, "State.auto_fork", rid)
     ys = [n for n in ast.walk(f.node) if isinstance(n, (ast.Yield, ast.YieldFrom))]
     if len(ys) != 1:
-        ctx.unknown("C02.R7", f, f.node, f"{len(ys)} yield(s) in State.auto_fork (one expected)")
+        ctx.unknown(rid, f, f.node, f"{len(ys)} yield(s) in State.auto_fork (one expected)")
         return
     saved = [U(st.targets[0]) for st in statements(f.node) if isinstance(st, ast.Assign) and U(st.value) == "self.auto_fork_type" and isinstance(st.targets[0], ast.Name)]
+    for st in statements(f.node):
+        if isinstance(st, ast.Assign) and isinstance(st.targets[0], ast.Tuple) and isinstance(st.value, ast.Tuple) and len(st.targets[0].elts) == len(st.value.elts):
+            saved += [U(a) for a, b in zip(st.targets[0].elts, st.value.elts) if isinstance(a, ast.Name) and U(b) == "self.auto_fork_type"]
     ok = False
     for t in ast.walk(f.node):
         if isinstance(t, ast.Try) and any(y is ys[0] for b in t.body for y in ast.walk(b)):
@@ -507,13 +510,22 @@ def r7_auto_fork_scoped(ctx):
     # the block runs under the requested mode: `self.auto_fork_type = <the parameter>` on every path to the yield
     cfgf = CFG(f.node)
     par = [a.arg for a in f.node.args.args[1:]]
-    sets = [n for n, st in cfgf.stmt.items() if isinstance(st, ast.Assign) and U(st.targets[0]) == "self.auto_fork_type" and par and U(st.value) == par[0]]
+    def sets_mode(st):
+        if not (isinstance(st, ast.Assign) and par):
+            return False
+        t, v = st.targets[0], st.value
+        if U(t) == "self.auto_fork_type" and U(v) == par[0]:
+            return True
+        if isinstance(t, ast.Tuple) and isinstance(v, ast.Tuple) and len(t.elts) == len(v.elts):  # a, self.auto_fork_type = self.auto_fork_type, type
+            return any(U(a) == "self.auto_fork_type" and U(b) == par[0] for a, b in zip(t.elts, v.elts))
+        return False
+    sets = [n for n, st in cfgf.stmt.items() if sets_mode(st)]
     yn = [n for n, st in cfgf.stmt.items() if st is not None and any(y is ys[0] for y in header_walk(st))]
     ok_set = bool(sets) and bool(yn) and any(cfgf.dominates(s_, yn[0]) for s_ in sets)
-    ctx.check(ok_set, "C02.R7", f, cfgf.stmt[sets[0]] if sets else ys[0], "the requested mode is in force inside the block",
+    ctx.check(ok_set, rid, f, cfgf.stmt[sets[0]] if sets else ys[0], "the requested mode is in force inside the block",
               "State.auto_fork does not (always) switch to the requested mode before yielding: the samplers' proposals inside `with state.auto_fork(...)` are not snapshotted, "
               "so a rejection has nothing (or a stale snapshot) to revert to", construct="mode set before the yield")
-    ctx.check(ok, "C02.R7", f, ys[0], "the previous mode is saved before and restored in `finally` around the yield",
+    ctx.check(ok, rid, f, ys[0], "the previous mode is saved before and restored in `finally` around the yield",
               "State.auto_fork does not restore the previous forking mode in a `finally`: an exception escaping `with state.auto_fork(None)` leaves snapshotting off, "
               "and later rejected proposals are not (or wrongly) reverted")
 
